@@ -287,6 +287,46 @@ pub fn run(ctx: &Ctx, rep: &mut Report) {
     );
     rep.sample("all-minutes", json!({"carrier": "cfm_header", "date": 20000, "time": 1439}));
 
+    // ---- first call on a brand-new thread (caches and memo tables start empty there) ----------------
+    {
+        let mut n = 0u64;
+        let firsts: [u32; 7] = [65_535, 1, 32_767, 32_768, 2, 65_534, 20_000];
+        for carrier in CARRIERS_MS.iter().chain(CARRIERS_MIN.iter()) {
+            for (i, d) in firsts.iter().enumerate() {
+                let carrier = carrier.to_string();
+                let minute = is_minute_carrier(&carrier);
+                let seq: Vec<Case> = vec![
+                    Case { carrier: carrier.clone(), date: *d, time: if minute { 1439 } else { 86_399_999 } },
+                    Case { carrier: carrier.clone(), date: firsts[(i + 1) % firsts.len()], time: 0 },
+                    Case { carrier: carrier.clone(), date: *d, time: 0 },
+                ];
+                n += seq.len() as u64;
+                let r = std::thread::spawn(move || {
+                    for c in &seq {
+                        if let Err(f) = check_in_domain(c) {
+                            return Some((f, c.clone()));
+                        }
+                    }
+                    None
+                })
+                .join();
+                match r {
+                    Ok(Some((f, c))) => rep.record_failure("in-domain", f, json!(c)),
+                    Ok(None) => {}
+                    Err(_) => rep.record_failure("in-domain", Fail::new("panic:oracle-or-code", "fresh-thread probe panicked"), Value::Null),
+                }
+            }
+        }
+        rep.enumerated(
+            "fresh-thread-first-calls",
+            "each carrier evaluated as the FIRST date-time conversion on a brand-new thread for day counts {65535, 1, 32767, 32768, 2, 65534, 20000}, followed by another day and the first one again on the same thread",
+            n,
+            n,
+            false,
+        );
+        rep.sample("fresh-thread-first-calls", json!({"carrier": "message_header", "date": 65535, "time": 86_399_999}));
+    }
+
     // ---- cross-crate agreement for equal (d, t) is implied by both equalling the closed form -----
 
     // ---- out-of-domain: no panic ---------------------------------------------------------------
